@@ -56,6 +56,7 @@ def build(p):
     expect.append(("reply", i_load, "ok", "Factory.fromJson rejected a toJson() document"))
     expect.append(("eqdoc", "r", "a", "reload re-serialises to a different document"))
     expect.append(("pycheck", "c04_strict_string_file", "a"))
+    expect.append(("pycheck", "c04_names", "a", "r"))
     ops.append(("roundtrip", "r2", "r"))
     ops.append(("eq", "r", "r2", 0, 0))
     expect.append(("reply", len(ops) - 1, True, "two reloads of one document compare unequal"))
@@ -81,6 +82,35 @@ def build(p):
     ops.append(("roundtrip", "rmr", "rm"))
     expect.append(("eqdoc", "rmr", "am", "reloaded * f does not survive a second round trip"))
     return {"ops": ops, "expect": expect}
+
+
+def _qnames(o, depth=0, out=None):
+    """(depth, primitive, quantity name) of every node that was or can be filled (templates excepted)"""
+    import histogrammar as _hg
+
+    out = [] if out is None else out
+    q = getattr(o, "quantity", None)
+    out.append((depth, o.name, getattr(q, "name", None)))
+    tmpl = o.__dict__.get("value") if isinstance(o, (_hg.SparselyBin, _hg.Categorize, _hg.CentrallyBin)) else None
+    for c in o.children:
+        if c is None or c is tmpl:
+            continue
+        _qnames(c, depth + 1, out)
+    return out
+
+
+@common.pycheck("c04_names")
+def _names(py, replies, a, r):
+    """the reload carries the same quantity names as the original, node by node (the document alone cannot show a name
+    that toJson failed to write)"""
+    if a not in py.pool or r not in py.pool:
+        return None
+    na = sorted(_qnames(py.pool[a]), key=repr)
+    nr = sorted(_qnames(py.pool[r]), key=repr)
+    if na != nr:
+        diff = [x for x in na if x not in nr][:3]
+        return "the reloaded container does not carry the quantity names of the original: %r missing after the round trip" % (diff,)
+    return None
 
 
 @common.pycheck("c04_strict_string_file")
